@@ -1,5 +1,5 @@
 SPECIFICATION Spec
-CONSTANTS Chunks = 3  Ticks = 3  Design = "communicated"
-INVARIANTS NoRace ReportsInRange FinalIsTotal
+CONSTANTS Chunks = 3  Ticks = 3  Design = "communicated"  StoreWhen = "beforeClose"
+INVARIANTS NoRace ReportsInRange FinalIsTotal FinalSeesResult
 PROPERTIES ExactlyOneFinal Termination
 CHECK_DEADLOCK FALSE
